@@ -32,6 +32,7 @@ from nx import wx, NinjaSandbox, NinjaOracle, HarnessError, mode_db  # noqa: E40
 from wx import Result, Args  # noqa: E402
 import nfamilies as F  # noqa: E402
 
+PROP = "C18"
 ORACLE = NinjaOracle()
 
 ASSUMPTIONS = [
@@ -605,7 +606,7 @@ def minimise(fam, mode, h, cls):
 
 # --------------------------------------------------------------------------
 # failure injection
-def failure_items(fams, all_variants):
+def failure_items(fams, all_variants, kinds=("fail-before", "fail-after", "term-after")):
     for fam in fams:
         variants = range(len(fam.descs)) if all_variants else [0]
         for vi in variants:
@@ -613,7 +614,7 @@ def failure_items(fams, all_variants):
             for e in m.edges:
                 if e.phony:
                     continue
-                for kind in ("fail-before", "fail-after", "term-after"):
+                for kind in kinds:
                     for t in fam.targets:
                         if t and m.producer(t) is None:
                             continue
@@ -625,13 +626,15 @@ def failure_items(fams, all_variants):
                                 prefixes.append(["b:" + t, "e:" + s])
                         for o in e.outs:
                             prefixes.append(["b:" + t, "x:" + o])
-                        if kind == "term-after":
+                        if kind in ("term-after", "kill-tool-mid"):
                             prefixes = prefixes[:2]   # death by a fatal signal: fresh tree and the first edited prefix
                         for pre in prefixes:
                             for k in (1, 0):
                                 for mode in nx.MODES:
                                     if k == 0 and mode in ("j4db", "j1nodb"):
                                         continue      # keep-going (-k 0) is explored with j1db and j4nodb only
+                                    if kind == "kill-tool-mid" and (k == 0 or mode != "j1db"):
+                                        continue      # the tool itself is killed: serial, with a database
                                     yield fam, vi, mode, k, e.name, kind, t, pre
 
 
@@ -735,6 +738,73 @@ def one_failure(res, fam, vi, mode, k, name, kind, t, pre, verbose=False, tool="
         w.close()
 
 
+def one_toolkill(res, fam, vi, mode, k, name, kind, t, pre, verbose=False):
+    """C04 at the Ninja front end: PRE, then a build in which command NAME half-writes its outputs and SIGKILLs the tool;
+    the build continued from that state (database rolled back by SQLite, outputs modified) must give clean-build contents."""
+    w = World(fam, mode, "llbuild")
+    spec = "C04k|%s|%s|%s|%d|%s|%s|%s|%s" % (fam.id, fam.descs[vi].id, mode, k, name, kind, t, " ".join(pre))
+    try:
+        if vi != 0:
+            w.edit("D:" + fam.descs[vi].id)
+        m = w.desc
+        if not ORACLE.expect(m, w.sb, t).ok:
+            res.count("kill_items_skipped_variant_does_not_build_from_scratch")
+            return
+        for ev in pre:
+            if ev.startswith("b:"):
+                o = w.build(ev[2:], judge=False)
+                res.count("builds")
+                if o["rc"] != 0:
+                    raise HarnessError("kill item prefix build failed: " + spec + "\n" + o["out"])
+            else:
+                w.edit(ev)
+        res.count("evaluations")
+        e = m.edge(name)
+        prior = "the-command-had-a-recorded-result" if pre else "the-command-had-no-recorded-result"
+        what = "%s/%s [%s] target %r, after '%s': the tool was SIGKILLed while %s (%s) had written the bytes 'PARTIAL' to its outputs" % (
+            fam.id, m.id, mode, t, " ".join(pre), name, edge_kind(m, e))
+        w.set_ctl({e.tag: "kill-tool-mid"})
+        rc, out, ran = w.sb.build(t, mode)
+        res.count("builds")
+        if verbose:
+            print("  killed build rc=%d ran=%s\n%s" % (rc, ran, indent(out)))
+        if e.tag not in ran:
+            res.count("kill_not_reached")
+            return
+        if rc == 0:
+            raise HarnessError("the tool survived kill-tool-mid: " + spec + "\n" + out)
+        res.count("distinct_nontrivial")
+        res.count("tool_kills")
+        w.set_ctl({})
+        ex = ORACLE.expect(m, w.sb, t)
+        rc2, out2, ran2 = w.sb.build(t, mode)
+        res.count("builds")
+        tags = m.by_tag()
+        names2 = [tags[x].name for x in ran2 if x in tags]
+        if verbose:
+            print("  continued build rc=%d ran=%s\n%s" % (rc2, names2, indent(out2)))
+        if not ex.ok:
+            return
+        if rc2 != 0:
+            res.violate("C04.ninja-continued-build-fails-%s-%s" % (edge_kind(m, e), prior),
+                        "%s; the continued build failed: %s" % (what, out2[-300:]), spec)
+            return
+        for n2 in ex.order:
+            e2 = m.edge(n2)
+            if e2.phony:
+                continue
+            for o in e2.outs:
+                got = w.sb.read(o)
+                if got != ex.outputs[o]:
+                    res.violate("C04.ninja-continued-build-keeps-half-written-output-%s-%s" % (edge_kind(m, e), prior),
+                                "%s; the continued build succeeded (ran: %s) but output %s is %r, a clean build gives %r" % (
+                                    what, ",".join(names2) or "none", o, got, ex.outputs[o]), spec)
+                    return
+        res.count("converged_after_kill")
+    finally:
+        w.close()
+
+
 # --------------------------------------------------------------------------
 def phases_for(tier):
     allf = F.all_families()
@@ -777,9 +847,21 @@ def work_items(tier, only=None, phase=None):
         idx += 1
 
 
+def kill_items(tier, only=None):
+    """C04 at the Ninja front end: the tool is killed while a command has half-written its outputs."""
+    fams, _, allv, _ = phases_for(tier)
+    if only:
+        fams = [f for f in fams if f.id in only]
+    idx = 0
+    for it in failure_items(fams, allv, kinds=("kill-tool-mid",)):
+        yield idx, "f", it
+        idx += 1
+
+
 def run(args, res):
     only = args.extra["families"].split(",") if args.extra.get("families") else None     # development aid
-    for idx, kind, it in work_items(args.tier, only, args.extra.get("phase")):
+    items = kill_items(args.tier, only) if args.prop == "C04" else work_items(args.tier, only, args.extra.get("phase"))
+    for idx, kind, it in items:
         if (idx + args.seed) % args.nshards != args.shard:
             continue
         if args.over_budget():
@@ -801,6 +883,9 @@ def run(args, res):
                             if t["class"] == v["class"]:
                                 v["what"], v["replay"] = t["what"], t["replay"]
                                 break
+        elif it[5] == "kill-tool-mid":
+            one_toolkill(res, *it)
+            res.count("kill_items")
         else:
             one_failure(res, *it)
             res.count("failure_items")
@@ -839,6 +924,14 @@ def replay(args, res):
                 pre = parts[8].split(" ") if len(parts) > 8 and parts[8] else []
                 one_failure(res if tool == "llbuild" else Result(), fam, vi, parts[3], int(parts[4]), parts[5], parts[6], parts[7],
                             pre, verbose=True, tool=tool)
+            elif parts[0] == "C04k":
+                if tool != "llbuild":
+                    continue
+                fam = find_family(parts[1])
+                vi = fam.by_id[parts[2]]
+                print(fam.descs[vi].ninja())
+                pre = parts[8].split(" ") if len(parts) > 8 and parts[8] else []
+                one_toolkill(res, fam, vi, parts[3], int(parts[4]), parts[5], parts[6], parts[7], pre, verbose=True)
             else:
                 raise HarnessError("unknown replay spec " + spec)
     finally:
@@ -851,8 +944,10 @@ def main():
     res = Result()
     res.assumptions = list(ASSUMPTIONS)
     try:
-        if args.prop != "C18":
-            raise HarnessError("worldx3 decides C18 only, not %r" % args.prop)
+        if args.prop not in ("C18", "C04"):
+            raise HarnessError("worldx3 decides C18 (and the Ninja part of C04), not %r" % args.prop)
+        global PROP
+        PROP = args.prop
         if not os.path.exists(wx.LLBUILD) or not os.path.exists(nx.NCMD):
             raise HarnessError("missing %s or %s" % (wx.LLBUILD, nx.NCMD))
         if args.replay:
@@ -866,7 +961,7 @@ def main():
                 "per file and one D:), x modes {--jobs 1, --jobs 4} x {--db, --no-db}; each history is replayed from scratch in a "
                 "fresh sandbox, one llbuild process per build, and its LAST build is judged (contents = reference, ordering, "
                 "must-run causes, rerun-without-cause, then an immediate null build in the db modes); " + text +
-                "; failure items: (variant, failing command, fail-before|fail-after|term-after (the shell running the command dies of SIGTERM after the outputs were written), target, prefix in {fresh, build+edit of each "
+                "; failure items: (variant, failing command, fail-before|fail-after|term-after (the shell running the command dies of SIGTERM after the outputs were written)|kill-tool-mid (the command half-writes its outputs and SIGKILLs the build tool: the continued build must not keep them), target, prefix in {fresh, build+edit of each "
                 "source, build+delete of its output}, -k 1|0, mode): failing build, second failing build, repair, build, null build. "
                 "evaluations = histories + failure items executed; distinct_nontrivial = histories with >= 2 builds whose last "
                 "build executed at least one command + failure items in which the failing command was actually reached")
